@@ -79,8 +79,8 @@ def ta_state_findings(rec, cfg, machine):
                 out.append(F('C01', 'exclusive-not-in-shared-set', 'exclusive-in-pool-free-set',
                              'exclusive CPUs %s of %s still in the free shared/isolated set of pool %s' % (sorted(E & (set(p['free_shar']) | set(p['free_iso']))), g['id'], p['name']), seq))
         for c in cache.values():
-            if c['id'] == g['id'] or c['state'] not in LIVE:
-                continue
+            if c['id'] == g['id'] or c['state'] not in LIVE or not pin_cpu:
+                continue   # with CPU pinning switched off nothing is told; cached cpusets are whatever was there before
             ov = E & parse_set(c['cpus'])
             if ov:
                 sig = 'overlapping-container-has-no-grant' if c['id'] not in grants else 'exclusive-in-other-told-cpuset'
@@ -325,7 +325,11 @@ def c05_findings(rv, ev, rec, prev_cache):
             told = v.get(f)
             if told is not None:
                 same = (told == cv) if f in ('cpus', 'mems') else (told == cv or (cv == 0 and told is None))
-                if not same:
+                if not same and f == 'cpus' and cv == '':
+                    # an empty cpuset cannot be expressed in an NRI update (empty = unchanged): consequence of K2
+                    out.append(F('C05', 'view-eq-cache', 'cache-cpuset-emptied',
+                                 '%s: container %s cache cpuset became empty, the runtime still has %r' % (op, cid, told), seq))
+                elif not same:
                     out.append(F('C05', 'view-eq-cache', 'runtime-view-differs:' + f,
                                  '%s: container %s cache %s=%r but the plugin last told the runtime %r' % (op, cid, f, cv, told), seq))
             elif pc is not None and pc[f] != cv and cv not in ('', 0):
